@@ -4,8 +4,9 @@ import Iota.Driver.C15
 import Iota.Driver.Bech32
 import Iota.Driver.C19
 import Iota.Driver.Curl
+import Iota.Driver.Bip39
 
 namespace Iota.Driver
 def allOps : List (String × Handler) :=
-  C14.ops ++ C10.ops ++ C15.ops ++ Bech32.ops ++ C19.ops ++ Curl.ops
+  C14.ops ++ C10.ops ++ C15.ops ++ Bech32.ops ++ C19.ops ++ Curl.ops ++ Bip39.ops
 end Iota.Driver
